@@ -576,4 +576,6 @@ PROPS['C12']['bounded_part'] = ('that CPython\'s str.strip/split/join/int/format
                                 'real files and codecs -- round trips and independent reference readers/writers over the stated scopes')
 for _p in ('C13', 'C14'):
     PROPS[_p]['units'] += [u for u in ('definitions.__eq__.plain',) if u not in PROPS[_p]['units']]
+# C15 names Lattice.join/meet among its observation points: the n-ary forms are the lub/glb of C07, hence label-level statements (seeded C15-J)
+PROPS['C15']['units'] += [u for u in ('lattices.join', 'lattices.meet', 'bitsets.Meta.reduce_and', 'bitsets.Meta.reduce_or') if u not in PROPS['C15']['units']]
 NOT_APPLICABLE = {}
